@@ -151,6 +151,14 @@ impl VacancyMap {
     }
 }
 
+#[cfg(folo_verif)]
+impl VacancyMap {
+    /// Verification hook: the raw storage blocks.
+    pub(crate) fn verif_blocks(&self) -> Vec<u64> {
+        self.blocks.clone()
+    }
+}
+
 fn get_bit(block: BitBlock, bit_index: usize) -> bool {
     (block & (1 << bit_index)) != 0
 }
